@@ -116,6 +116,7 @@ func (e *Encoder) Write(_ context.Context, f frame.Frame) error {
 type decodingReader struct {
 	dec     *gobDecoder
 	crc     hash.Hash32
+	nread   *countWriter
 	scratch frame.Frame
 	buf     frame.Frame
 	err     error
@@ -137,8 +138,17 @@ func NewDecodingReader(r io.Reader) Reader {
 	if _, ok := r.(io.ByteReader); !ok {
 		r = bufio.NewReader(r)
 	}
-	r = io.TeeReader(r, crc)
-	return &decodingReader{dec: newGobDecoder(readerByteReader{Reader: r}), crc: crc}
+	nread := new(countWriter)
+	r = io.TeeReader(r, io.MultiWriter(crc, nread))
+	return &decodingReader{dec: newGobDecoder(readerByteReader{Reader: r}), crc: crc, nread: nread}
+}
+
+// countWriter counts the bytes written to it.
+type countWriter int64
+
+func (c *countWriter) Write(p []byte) (int, error) {
+	*c += countWriter(len(p))
+	return len(p), nil
 }
 
 func (d *decodingReader) Read(ctx context.Context, f frame.Frame) (n int, err error) {
@@ -147,9 +157,16 @@ func (d *decodingReader) Read(ctx context.Context, f frame.Frame) (n int, err er
 	}
 	for d.buf.Len() == 0 {
 		d.crc.Reset()
+		*d.nread = 0
 		if d.err = d.dec.Decode(&n); d.err != nil {
 			if d.err == io.EOF {
-				d.err = EOF
+				// This is the end of the stream only if not a single
+				// byte of a new batch was read.
+				if *d.nread == 0 {
+					d.err = EOF
+				} else {
+					d.err = io.ErrUnexpectedEOF
+				}
 			}
 			return 0, d.err
 		}
@@ -217,7 +234,8 @@ func (d *decodingReader) decode(f frame.Frame) error {
 		err := d.dec.DecodeValue(v)
 		if err != nil {
 			if err == io.EOF {
-				return EOF
+				// The batch is incomplete: never a clean end of stream.
+				return io.ErrUnexpectedEOF
 			}
 			return err
 		}
